@@ -50,6 +50,7 @@ package util
 
 //@ func SortedSet.Add
 //@   props C04 C05 C15 C17
+//@   local found bool
 //@   uses mem_def
 //@   hint before slices.Sort: forall x string :: Mem(deref(set), x) == (old(Mem(deref(set), x)) || x == e)
 //@   hint before slices.Sort: old(SetInv(deref(set))) ==> (forall p, q :: 0 <= p && p < q && q < len(set.elems) ==> set.elems[p] != set.elems[q])
@@ -99,11 +100,16 @@ package util
 
 //@ func MakeASCIISet
 //@   props C17
+//@   local as util.ASCIISet
+//@   local i int
+//@   local c byte
 //@   allocs <= 0
 //@   loop 0 invariant 0 <= rangeint && rangeint < len(chars)
 //@   loop 0 decreases len(chars) - rangeint
 
 //@ func NewSet
 //@   props C17
+//@   local set util.Set
+//@   local e string
 //@   loop 0 invariant -1 <= rangeindex && rangeindex < len(elems)
 //@   loop 0 decreases len(elems) - rangeindex
